@@ -6,6 +6,7 @@ import importlib
 import inspect
 import json
 import pkgutil
+import os
 import sys
 
 
@@ -28,7 +29,49 @@ def as_table(d):
     return [[k, e if e is not None else ["unknown"]] for k, e in ents]
 
 
+def use_the_library():
+    """--after-use: before the tables are dumped the library is USED — a facade attached (and re-attached) to devices of every
+    peripheral device type, with every bit of the rest of the standard INQUIRY data set and clear, and every facade method called
+    once — so that tables which only differ from T10 after some call in the process are seen as the caller sees them"""
+    import inspect
+    sys.path.insert(0, os.path.join(os.path.dirname(os.path.abspath(__file__)), "stubs"))
+    from pyscsi.pyscsi import scsi_enum_command as ec
+    from pyscsi.pyscsi.scsi import SCSI
+    from recdev import RecordingDevice
+    for fillbyte in (0x00, 0xFF, 0x08, 0x55, 0xAA):
+        for b0 in list(range(32)) + [0x20 | t for t in (0, 1, 5, 8)] + [0x7F, 0xFF]:
+            dev = RecordingDevice(ec.spc)
+            dev.fill = lambda cmd, b0=b0, fb=fillbyte: bytes([b0]) + bytes([fb]) * 95
+            try:
+                s = SCSI(dev, 512)
+            except Exception:  # noqa
+                continue
+            dev2 = RecordingDevice(ec.spc)
+            dev2.fill = lambda cmd, fb=fillbyte: bytes([0x01]) + bytes([fb]) * 95
+            try:
+                s(dev2)
+            except Exception:  # noqa
+                pass
+            for name, fn in inspect.getmembers(s, predicate=inspect.ismethod):
+                if name.startswith("_") or name in ("execute",):
+                    continue
+                sig = inspect.signature(fn)
+                args = []
+                for p in sig.parameters.values():
+                    if p.kind in (p.VAR_KEYWORD, p.VAR_POSITIONAL):
+                        continue
+                    if p.default is not inspect.Parameter.empty:
+                        continue
+                    args.append(bytearray(512) if p.name == "data" else 1)
+                try:
+                    fn(*args)
+                except Exception:  # noqa
+                    pass
+
+
 def main():
+    if "--after-use" in sys.argv:
+        use_the_library()
     import pyscsi
     out = dict(tables={}, opcodes={}, status=[], sense={}, modules=[], import_errors={})
     mods = []
